@@ -109,7 +109,7 @@ def run(ctx):
     else:
         recs = kernel_records(ctx, rng, nid) + solver_records(ctx, rng, nid)
     res = common.pipeline(
-        ctx, [('SchemeMC', 'SchemeMC_C02_%s.cfg' % ctx.tier)], 'Trace_Scheme', recs, nontrivial_of=nontrivial, mutator=mutate,
+        ctx, [('SchemeMC', 'SchemeMC_C02_%s.cfg' % ctx.tier), ('IntegratorMC', 'IntegratorMC.cfg')], 'Trace_Scheme', recs, nontrivial_of=nontrivial, mutator=mutate,
         rule='each of the 15 per-axis kernels x (Cython wrapper | ctypes with unequal axis lengths) x delj off/on, random grids '
              '(uniform/exponential/quadratic/random monotone, a different grid per axis), densities, nu in [1e-2,1e2], distinct m in {0}U[0.05,20], '
              'gamma in [-40,40], h in [0,1], beta in [0.2,5], dt in [1e-6,1e-1]; 5 precalc kernels and tridiag on random diagonally dominant systems; '
